@@ -89,6 +89,7 @@ type blockRecord struct {
 	BaseFee *big.Int // base fee in force during this block
 	Floor   *big.Int // max(base fee, integer part of the global minimum gas price) during this block
 	End     interface{}
+	Hash    []byte // header hash to hand to FinalizeBlock (nil = the driver's default)
 }
 
 // runBlockPlans builds and executes block plans on c, taking snapshots with snap at every observation point.
@@ -145,7 +146,7 @@ func execBlock(c *chain.Chain, rec blockRecord, dt int64, proposer int, txs [][]
 	} else {
 		c.SetObserver(nil)
 	}
-	res, err := c.RunBlock(chain.Block{Dt: dt, Proposer: proposer, Txs: txs})
+	res, err := c.RunBlock(chain.Block{Dt: dt, Proposer: proposer, Txs: txs, Hash: rec.Hash})
 	c.SetObserver(nil)
 	rec.Res, rec.Err = res, err
 	rec.Height = c.Height
